@@ -213,6 +213,8 @@ func runC13(c *eng.Ctx) {
 			r2p := c.Rule("C13.R2", "B:order", "stream order: fresh decode target per document, one append per decoded document in both decoders, ascending conversion, one ExecuteOperation per element in ascending order with aggregated errors", 6)
 			r2p.Check(!el.Desc, f.Key+" ascending-conversion", loop.Pos(), "ascending range over the decoded specs", "operations are not converted in document order")
 			runC13R2(c, r2p)
+			streamDecodedToEOF(c, r2p, pkgPatch+".unmarshalFromJson")
+			streamDecodedToEOF(c, r2p, pkgPatch+".unmarshalFromYaml")
 		}
 	} else {
 		r1.Unknown("anchor:ParseOperations/ValidateOperationSpec/NewFromOperationSpec", token.NoPos, "not found")
